@@ -463,9 +463,13 @@ def run_batch(check_cls, tier: str, base_seed: int, seconds: float, workers: int
     except ImportError:
         pass
     except Exception as e:  # schema failure: report, keep file for inspection
-        print(f"HARNESS-ERROR: evidence does not validate: {e}", file=sys.stderr)
         if exit_code == 0:
+            print(f"HARNESS-ERROR: evidence does not validate: {e}", file=sys.stderr)
             exit_code = 2
+        else:
+            # a violation stopped the batch early: coverage is whatever had been explored
+            print(f"note: batch stopped early by a violation; evidence is partial "
+                  f"({str(e).splitlines()[0]})", file=sys.stderr)
     with open(ev_path, "w") as f:
         json.dump(evidence, f, indent=1)
 
